@@ -439,6 +439,20 @@ func (g *exprGen) expr(rung int) string {
 	case rungRangeFn:
 		return g.rangeCall()
 	case rungAgg:
+		if rapid.IntRange(0, 2).Draw(t, "nestedAgg") == 0 {
+			// aggregation over aggregation (outer grouping a subset / superset / unrelated to the inner one)
+			g.feat("agg:nested")
+			if rapid.Bool().Draw(t, "byOverBy") {
+				// by over by with the outer labels a subset of the inner ones (prefix of the sorted inner labels or not): the
+				// planner may stream the outer aggregation over the inner groups only when its groups are contiguous there
+				pairs := [][2]string{{"job", "job,inst"}, {"inst", "job,inst"}, {"zone", "job,zone"}, {"job", "job,zone"}, {"zone", "inst,zone"}, {"inst", "inst,zone"}, {"job,zone", "job,inst,zone"}, {"inst", "job,inst,zone"}}
+				p := rapid.SampledFrom(pairs).Draw(t, "byPair")
+				g.feat("agg:by_over_by")
+				o1, o2 := rapid.SampledFrom(aggOps).Draw(t, "outerop"), rapid.SampledFrom(aggOps).Draw(t, "innerop")
+				return o1 + " by (" + p[0] + ") (" + o2 + " by (" + p[1] + ") (" + g.leaf(5) + "))"
+			}
+			return g.agg(g.agg(g.leaf(5)))
+		}
 		return g.agg(g.leaf(5))
 	case rungBinop:
 		leaf := func() string { return g.leaf(4) }
